@@ -1,6 +1,6 @@
 """C16 configuration for ./check."""
 CFG = {
-    "modules": ["VaxisModel.Props.C16"],
+    "modules": ["VaxisModel.Props.C16", "VaxisModel.Props.C16E2E", "VaxisModel.Witness.F116"],
     "extractors": [],
     "drivers": ["C16"],
     "trivial_prefix": ("L|L|L|L|L|L|L", "bad-op"),
